@@ -40,7 +40,7 @@ type stats struct {
 	startedWhileInsideFeed, mixedEnc, nilPath, perPathOrigins, rpcDeadline, walkParkedInInsert bool
 	aclFlipped, oddTargetNames, updatesOnlyRound, atomicTwist                                  bool
 	foreignWrite, foreignDeniedStored, pollFlood, pollFloodBig, pollFloodLeftStalled           bool
-	dressed, malformedFirst, twinPaths                                                         bool
+	dressed, malformedFirst, twinPaths, streamHalfClosed                                       bool
 	skippedSteps, maxBulk, maxOnceLeaves                                                       int
 }
 
@@ -99,6 +99,7 @@ func (s *stats) labels() []string {
 	add(s.pollFloodBig, "poll-triggers-while-stalled>=5")
 	add(s.pollFloodLeftStalled, "poll-client-left-stalled-after-triggers")
 	add(s.dressed, "request-dressed-with-unimplemented-fields")
+	add(s.streamHalfClosed, "stream-client-half-closed-its-sending-side")
 	add(s.malformedFirst, "first-message-is-not-a-subscription-request")
 	add(s.twinPaths, "paths-of-one-request-that-read-the-same-when-joined")
 	add(s.maxBulk > 32, "bulk-update>32")
@@ -1522,6 +1523,15 @@ func (w *world) stepEOF(st Step) {
 		return
 	}
 	s := w.subs[st.Sub%len(w.subs)]
+	if s.started && !s.ended && !s.eofSent && s.spec.Mode == "stream" && s.spec.First == "" {
+		// A STREAM client that half-closes its sending side once its request is out (legal gRPC: Send, CloseSend,
+		// Recv...): the receiving direction stays live, the subscription goes on as if nothing had happened.
+		s.eofSent = true
+		close(s.stream.recvC)
+		synctest.Wait()
+		w.st.streamHalfClosed = true
+		return
+	}
 	if !s.started || s.ended || s.eofSent || s.spec.Mode != "poll" {
 		w.st.skippedSteps++
 		return
